@@ -133,6 +133,16 @@ void setup(Handler& ah, Dest& d, int cfg, int part /* 0 = all, 1/2 = halves for 
       // all_of: "All of the specified arguments must be used" (class documentation)
       if (in(1)) { ah.addArgument("a", DEST_VAR(d.a), "a"); ah.addArgument("b", DEST_VAR(d.b), "b"); ah.addConstraint(all_of("a;b")); }
       if (in(2)) { ah.addArgument("n,number", DEST_VAR(d.n), "number"); }
+   } else if (cfg == 8) {
+      // handler constraints over arguments with short AND long keys (spelled in every way by the driver)
+      if (in(1)) { ah.addArgument("i,input", DEST_VAR(d.n), "input"); ah.addArgument("o,output", DEST_VAR(d.m), "output"); ah.addConstraint(one_of("input;output")); }
+      if (in(2)) { ah.addArgument("p,print", DEST_VAR(d.p), "print"); ah.addArgument("q,quiet", DEST_VAR(d.q), "quiet"); ah.addConstraint(any_of("p;quiet"));
+                   ah.addArgument("a,alpha", DEST_VAR(d.a), "alpha"); ah.addArgument("b,beta", DEST_VAR(d.b), "beta"); ah.addConstraint(all_of("alpha;b")); }
+   } else if (cfg == 9) {
+      // the same argument required by one argument and excluded by another
+      if (in(1)) { ah.addArgument("a", DEST_VAR(d.a), "a")->addConstraint(requiresArg("c")); ah.addArgument("b", DEST_VAR(d.b), "b")->addConstraint(excludes("c"));
+                   ah.addArgument("c", DEST_VAR(d.f), "c"); ah.addArgument("x,extra", DEST_VAR(d.x), "x")->addConstraint(requiresArg("c;a"))->addConstraint(excludes("b")); }
+      if (in(2)) { ah.addArgument("g,gflag", DEST_VAR(d.g), "g"); }
    } else if (cfg == 4) {
       ah.addArgument("a", DEST_VAR(d.a), "a"); ah.addArgument("b", DEST_VAR(d.b), "b"); ah.addArgument("n,number", DEST_VAR(d.n), "number");
       ah.addConstraint(one_of("a;b"));
@@ -282,10 +292,13 @@ HX void hx_pa_order(uint64_t perm, uint64_t flags) {
 //   mode 1: spec = "<c>,number"                     (always refused: long key taken, or both taken)
 //   mode 2: spec = "<c>,other"                      (refused iff c is 'n' or 'o': contradicts the existing pair)
 //   mode 3: spec = "n,<w1><w2>"                     (always refused: short key taken)
-//   mode 4: spec = "<c>,<w1><w2>" with c not n/o    (accepted)
+//   mode 4: spec = "<c>,<w1><w2>" with c not n/o/k  (accepted)
+//   mode 5..9: keys of the long-only 'alpha' / short-only 'k' arguments reused in other forms (refused); mode 10: "--<w1><w2>,-<c>" (accepted)
 HX void hx_pa_keys(uint64_t mode, uint64_t) {
    Handler ah(0); int x = 0, y = 0, z = 0;
+   int u = 0, v = 0;
    ah.addArgument("n,number", DEST_VAR(x), "first"); ah.addArgument("o,output", DEST_VAR(y), "second");
+   ah.addArgument("alpha", DEST_VAR(u), "long only"); ah.addArgument("k", DEST_VAR(v), "short only");
    unsigned char c = vs_u8("key"), w1 = vs_u8("key"), w2 = vs_u8("key");
    auto plain = [](unsigned char ch) { return ch > ' ' && ch < 127 && ch != '-' && ch != ',' && ch != '!' ; };
    vs_assume(plain(c) && plain(w1) && plain(w2));
@@ -294,10 +307,16 @@ HX void hx_pa_keys(uint64_t mode, uint64_t) {
    else if (mode == 1) spec = std::string(1, (char) c) + ",number";
    else if (mode == 2) spec = std::string(1, (char) c) + ",other";
    else if (mode == 3) spec = std::string("n,") + (char) w1 + (char) w2;
-   else { vs_assume(c != 'n' && c != 'o'); spec = std::string(1, (char) c) + "," + (char) w1 + (char) w2; }
+   else if (mode == 5) { vs_assume(c != 'n' && c != 'o' && c != 'k'); spec = std::string(1, (char) c) + ",alpha"; }     // long key of a long-only argument
+   else if (mode == 6) spec = std::string("k,") + (char) w1 + (char) w2;                                                     // short key of a short-only argument
+   else if (mode == 7) spec = "number";
+   else if (mode == 8) spec = "--alpha";
+   else if (mode == 9) spec = "-k";
+   else if (mode == 10) { spec = std::string("--") + (char) w1 + (char) w2 + ",-" + (char) c; vs_assume(c != 'n' && c != 'o' && c != 'k'); }   // long first, dashes: accepted
+   else { vs_assume(c != 'n' && c != 'o' && c != 'k'); spec = std::string(1, (char) c) + "," + (char) w1 + (char) w2; }
    int rc = guarded([&] { ah.addArgument(spec, DEST_VAR(z), "third"); });
    vs_assert(rc != 2, "only std::exception from addArgument()");
-   bool refuse = mode == 0 ? (c == 'n' || c == 'o') : mode == 1 ? true : mode == 2 ? (c == 'n' || c == 'o') : mode == 3 ? true : false;
+   bool refuse = mode == 0 ? (c == 'n' || c == 'o' || c == 'k') : mode == 1 ? true : mode == 2 ? (c == 'n' || c == 'o' || c == 'k') : mode == 3 ? true : (mode >= 5 && mode <= 9) ? true : false;
    vs_assert((rc == 1) == refuse, "addArgument() refuses exactly the keys that are taken or contradict an existing pair");
    if (rc == 0) {
       // the new key must not have hijacked the old ones
